@@ -38,23 +38,34 @@ Proof. exact partial_decode_conforms. Qed.
 Print Assumptions C08_partial_decode_conforms.
 
 (* No modelled panic (BlockLabelSpec out of range, label slicing in
-   BlockMap/BlockObject, the deliberate BlockMapSpec panic, cty.ListVal/SetVal/MapVal
-   on inconsistent element types, refinement of a contradicting value) is
-   reachable, for every body and context, when in addition no BlockAttrsSpec has
-   a dynamic element type. *)
+   BlockMap/BlockObject, the deliberate BlockMapSpec panic, cty.MapVal in
+   BlockMapSpec's ctyMap on inconsistent element types, refinement of a
+   contradicting value) is reachable, for every body and context, outside the
+   noted shapes.  (cty.ListVal/SetVal in BlockList/BlockSet and cty.MapVal in
+   BlockAttrsSpec are guarded by CanListVal/CanSetVal/CanMapVal since fixes
+   7c5f679 and cb48ded: no premise about BlockAttrsSpec element types is needed.) *)
 Theorem C08_decode_no_panic :
-  forall s b c, wf_spec s -> static_block_attrs s ->
+  forall s b c, wf_spec s ->
     noted (snd (decode s b c)) = false -> unsupported (snd (decode s b c)) = false ->
     panicked (snd (decode s b c)) = false.
 Proof. exact decode_no_panic. Qed.
 Print Assumptions C08_decode_no_panic.
 
 Theorem C08_partial_decode_no_panic :
-  forall s b c, wf_spec s -> static_block_attrs s ->
+  forall s b c, wf_spec s ->
     noted (snd (partial_decode s b c)) = false -> unsupported (snd (partial_decode s b c)) = false ->
     panicked (snd (partial_decode s b c)) = false.
 Proof. exact partial_decode_no_panic. Qed.
 Print Assumptions C08_partial_decode_no_panic.
+
+(* so the panic premise of C08_decode_conforms follows from the others *)
+Theorem C08_decode_ok :
+  forall s b c, wf_spec s ->
+    noted (snd (decode s b c)) = false -> unsupported (snd (decode s b c)) = false ->
+    panicked (snd (decode s b c)) = false /\
+    type_conforms (type_of (fst (decode s b c))) (implied_type s) = true.
+Proof. exact decode_ok. Qed.
+Print Assumptions C08_decode_ok.
 
 (* When decoding reports no error the value is exactly the one the specification
    describes for the body's content ([denote], defined without Content, schemata
@@ -136,15 +147,18 @@ Print Assumptions C08_decode_value_correct_blockmap_refuted.
 (* BlockMapSpec{o, [k], BlockMapSpec{i, [x, y], AttrSpec{a, string}}} with
    o "k1" { i "p" "q" { a = "1" } }  o "k2" { }  panics in cty.MapVal. *)
 Theorem C08_decode_no_panic_nested_blockmap_refuted :
-  wf_spec wnp_spec /\ static_block_attrs wnp_spec /\ panicked (snd (decode wnp_spec wnp_body [])) = true.
+  wf_spec wnp_spec /\ panicked (snd (decode wnp_spec wnp_body [])) = true.
 Proof. exact decode_no_panic_nested_blockmap_refuted. Qed.
 Print Assumptions C08_decode_no_panic_nested_blockmap_refuted.
 
-(* BlockAttrsSpec{b, ElementType: dynamic} with  b { x = 1  y = "s" }  panics in cty.MapVal. *)
-Theorem C08_decode_no_panic_blockattrs_refuted :
-  wf_spec wba_spec /\ panicked (snd (decode wba_spec wba_body [])) = true.
-Proof. exact decode_no_panic_blockattrs_refuted. Qed.
-Print Assumptions C08_decode_no_panic_blockattrs_refuted.
+(* BlockAttrsSpec{b, ElementType: dynamic} with  b { x = 1  y = "s" }  (a panic
+   in cty.MapVal before fix cb48ded): an error and an unknown of the implied type. *)
+Theorem C08_blockattrs_dynamic_mixed_types :
+  wf_spec wba_spec /\ panicked (snd (decode wba_spec wba_body [])) = false /\
+  has_err (snd (decode wba_spec wba_body [])) = true /\
+  fst (decode wba_spec wba_body []) = VUnk (TMap TDyn) rf_none.
+Proof. exact blockattrs_dynamic_mixed_types. Qed.
+Print Assumptions C08_blockattrs_dynamic_mixed_types.
 
 Theorem C08_decode_no_panic_full_refuted :
   ~ (forall s b c, wf_spec s -> panicked (snd (decode s b c)) = false).
@@ -174,7 +188,7 @@ Definition ex_body : abody :=
           ([116;97;103], [[116;50]], ABody [([118], AVal (VStr [121]) false)] [] false []) ] false [].
 
 Example C08_example :
-  wf_spec ex_spec /\ static_block_attrs ex_spec /\
+  wf_spec ex_spec /\
   has_err (snd (decode ex_spec ex_body [])) = false /\ noted (snd (decode ex_spec ex_body [])) = false /\
   unsupported (snd (decode ex_spec ex_body [])) = false /\ panicked (snd (decode ex_spec ex_body [])) = false /\
   fst (decode ex_spec ex_body []) =
@@ -188,7 +202,7 @@ Example C08_example :
   fst (decode ex_spec ex_body []) = denote ex_spec [] ex_body [] /\
   type_conforms (type_of (fst (decode ex_spec ex_body []))) (implied_type ex_spec) = true.
 Proof.
-  split; [|split; [|vm_compute; repeat split]].
+  split; [|vm_compute; repeat split].
   - repeat split; try reflexivity; try discriminate; try lia;
       intros t1 n1 t2 n2 I1 I2 Q; cbn in I1, I2;
       repeat match goal with
@@ -196,5 +210,4 @@ Proof.
              | H : (_, _) = (_, _) |- _ => inversion H; clear H; subst
              | H : False |- _ => destruct H
              end; try reflexivity; vm_compute in Q; discriminate.
-  - cbn. repeat split.
 Qed.
